@@ -270,6 +270,24 @@ pub fn check(input: &str, apis: u8) -> Result<Info, OFail> {
                     ));
                 }
                 info.expr_ok = Some(true);
+                // parse_expr promises a whole-input expression ("Ensure we consumed all input"): the
+                // span of the result covers every token of the input
+                if let Ok(toks) = catch_unwind(AssertUnwindSafe(|| neumann_parser::tokenize(input))) {
+                    let real: Vec<&Token> = toks.iter().filter(|t| !t.is_eof()).collect();
+                    if let (Some(first), Some(last)) = (real.first(), real.last()) {
+                        if s > first.span.start.0 as usize || t < last.span.end.0 as usize {
+                            return Err(OFail::new(
+                                "span:expr-does-not-cover-input",
+                                format!(
+                                    "parse_expr returned Ok with span {s}..{t} but the tokens of the input span {}..{} on input {}",
+                                    first.span.start.0,
+                                    last.span.end.0,
+                                    show(input)
+                                ),
+                            ));
+                        }
+                    }
+                }
             },
             Err(e) => {
                 check_err("parse_expr", input, e, &mut info)?;
